@@ -50,7 +50,7 @@ def canon_listing(s):
 
 def default_compare(c, impl_line, model_line, multiset):
     """correspondence on the observables: every key the implementation prints"""
-    if multiset:
+    if multiset or c.get('op') == 'list':
         a, b = canon_listing(impl_line), canon_listing(model_line)
         return [] if a == b else ['listing differs']
     ist, ikv, ibare = parse_out(impl_line)
@@ -59,6 +59,8 @@ def default_compare(c, impl_line, model_line, multiset):
     if ist != mst:
         d.append('status impl=%s model=%s' % (ist, mst))
     for k, v in ikv.items():
+        if k.startswith('M_'):
+            continue           # measurements of the implementation
         if k in mkv and mkv[k] != v:
             d.append('%s impl=%s model=%s' % (k, v[:60], mkv[k][:60]))
         elif k not in mkv and ist == mst:
@@ -73,10 +75,30 @@ def spec_fields(model_line):
     return {k: v for k, v in kv.items() if k.startswith('S_')}
 
 
+def split_order(il):
+    """strip the ' M_order=...' measurement the disk ops append; returns (line, [names] or None)"""
+    i = il.find(' M_order=')
+    if i < 0:
+        return il, None
+    o = il[i + 9:]
+    names = [] if o == '-' else [infra.unhx(x).decode('latin-1') for x in o.split(',')]
+    return il[:i], names
+
+
 def run_cases(prop, cases):
     lines = [c['line'] for c in cases]
     impl = infra.run_driver(V + '/bin/godriver', lines, need_root=prop.need_root)
-    model = infra.run_driver(V + '/bin/mldriver', lines)
+    mlines = lines
+    if prop.need_root:
+        # the model is run on the directory entries in the order Readdir reported them
+        mlines, impl2 = [], []
+        for c, il in zip(cases, impl):
+            il, order = split_order(il)
+            impl2.append(il)
+            c['order'] = order
+            mlines.append(props.reorder_line(c, order) if order else c['line'])
+        impl = impl2
+    model = infra.run_driver(V + '/bin/mldriver', mlines)
     return impl, model
 
 
@@ -144,13 +166,15 @@ def run_check(pid, prop, tier, seed):
         if prop.extra_lines:
             ex_cases, ex_lines = [], []
             for c, il in zip(cases, impl):
-                el = prop.extra_lines(c, parse_out(il))
+                el = prop.extra_lines(c, il if getattr(prop, 'raw_oracle', False) else parse_out(il))
                 if el:
                     ex_cases.append((c, len(ex_lines), len(el)))
                     ex_lines += el
             ex_impl = infra.run_driver(V + '/bin/godriver', ex_lines)
+            raw = getattr(prop, 'raw_oracle', False)
             for c, off, n in ex_cases:
-                f = prop.extra_oracle(c, parse_out(c['impl']), [parse_out(x) for x in ex_impl[off:off + n]])
+                f = prop.extra_oracle(c, c['impl'] if raw else parse_out(c['impl']),
+                                      ex_impl[off:off + n] if raw else [parse_out(x) for x in ex_impl[off:off + n]])
                 if f:
                     failures.append((c, f))
         if prop.group_oracle:
@@ -280,3 +304,23 @@ register(Prop('C04', 'Frame / Index yield real paths', props.c04_cases, props.c0
 register(Prop('C12', 'setters, Copy, Split', props.c12_cases, props.c12_oracle, multiset=False,
               rule='random setter histories (length <= 8) from both styles, observed in full, plus Copy and Split'))
 PROPS['C12'].raw_oracle = True
+
+def _raw(p):
+    p.raw_oracle = True
+    return p
+
+register(_raw(Prop('C05', 'listing is an exact cover', props.c05_cases, props.c05_oracle, compare=props.c05_compare,
+              group_oracle=props.c05_group_oracle, partial='proved so far only for the parts of the pipeline listed in Properties/C05.v',
+              rule='generated file sets (dirs x basenames x extensions x width policies x signs x hidden x frame-less), each in 5 option/order variants')))
+register(_raw(Prop('C06', 'directory scan = listing of its non-directory entries', props.c06_cases, props.c06_oracle, need_root=True,
+              multiset=True, extra_lines=props.c06_extra_lines, extra_oracle=props.c06_extra_oracle, partial='the operating system (Readdir, Stat) is an oracle value observed on real temporary directories',
+              rule='real temporary directories with files, sub-directories, links to files / directories, dangling links, hidden entries x 6 spellings x option subsets')))
+register(_raw(Prop('C07', 'FindSequenceOnDisk', props.c07_cases, props.c07_oracle, need_root=True, multiset=False,
+              partial='the operating system is an oracle value',
+              rule='real directories: target sequence + adversarial siblings x patterns (pad tokens, range, concrete frame, no pad) x styles x StrictPadding')))
+register(Prop('C14', 'huge ranges answered arithmetically', props.c14_cases, props.c14_oracle,
+              partial='time and allocation of the implementation are measured (1 MiB / 2 s per case), not proved',
+              rule='single-component ranges with |A|,|B| up to 1e13, steps up to 1e6, queries at boundaries / interior / non-members'))
+register(_raw(Prop('C15', 'no input crashes the API; IsFrameRange = parser', props.c15_cases, props.c15_oracle,
+              partial='Format with arbitrary templates and stdlib internals are outside the model',
+              rule='mutated grammar-derived byte strings (numbers capped at 4 digits) through 8 entry points')))
